@@ -61,6 +61,15 @@ def engines():
                  "deps": e2_deps}],
         "link": SAN + ["-lrapidcheck"],
     }
+    TSAN = ["-fsanitize=thread"]
+    e["e2t"] = {
+        "tus": [{"src": "e2/tpol.cpp", "name": "e2t_pol_" + p_,
+                 "flags": TSAN + ["-DPOL_" + p_], "deps": e2_deps}
+                for p_ in ["dbg", "rel_ind", "rel_map"]] +
+               [{"src": "e2/tmain.cpp", "name": "e2t_main", "flags": TSAN,
+                 "deps": e2_deps}],
+        "link": TSAN + ["-lrapidcheck"],
+    }
     for name in ["e4", "e5", "e6"]:
         e[name] = {
             "tus": [{"src": name + "/main.cpp", "name": name + "_main",
@@ -429,6 +438,25 @@ prop("C19", engine="e6", variants=["names", "types"], rule=(
     technique="grammar-based property testing (rapidcheck) with a parser "
               "of the emitted declarations as oracle",
     quick=dict(cases=6000, size=60), thorough=dict(cases=200000, size=100))
+prop("C16", engine="e2t", tsan=True, rule=(
+    "typed universe built with -fsanitize=thread: a random registry is "
+    "updated, the sequential answer of every tuple of 22 methods is "
+    "tabulated, then 2..8 threads each run 50..2000 generated operations "
+    "(calls by reference, pointer, shared_ptr, virtual_ptr and "
+    "virtual_shared_ptr built through every route, resolve, erroring calls "
+    "with a throwing handler, generated yield points) behind a start "
+    "barrier while another thread runs update 1..50 times on an unrelated "
+    "policy whose definitions also change; oracle: zero ThreadSanitizer "
+    "reports (halt_on_error) and every result equals the sequential table; "
+    "non-trivial = >= 2 caller threads of which at least one observed the "
+    "updater progressing while it ran"),
+    technique="randomised concurrent stress under ThreadSanitizer "
+              "(happens-before race detection) with a sequential-table "
+              "oracle",
+    note="Trusted: ThreadSanitizer, the harness. The harness does not own "
+         "the scheduler: a result divergence that needs a specific "
+         "interleaving without a data race would only be found by luck.",
+    quick=dict(cases=80, size=60), thorough=dict(cases=2500, size=100))
 prop("C17", engine="e1", rule=(
     "random registries with random abstract flags (roots and middles "
     "biased abstract), gappy and deliberately ambiguous (duplicated) "
@@ -458,6 +486,7 @@ def worker_env(seed, cases, size):
     env["ASAN_OPTIONS"] = "detect_leaks=0:abort_on_error=0:" \
         "allocator_may_return_null=1"
     env["UBSAN_OPTIONS"] = "print_stacktrace=1"
+    env["TSAN_OPTIONS"] = "halt_on_error=1:exitcode=66:report_signal_unsafe=0"
     return env
 
 
@@ -471,15 +500,21 @@ def load_known_findings():
 
 def replay_file(exe, path, fork=True):
     env = worker_env(1, 1, 1)
+    env["VERIF_SHRINK_VERBOSE"] = "1"  # keep the sanitizer report
     p = subprocess.run([exe, "--replay", path] + (["--fork"] if fork else []),
                        env=env, capture_output=True, text=True)
     out = p.stdout.strip().splitlines()
-    last = out[-1] if out else ""
     failed = p.returncode != 0
     msg = ""
     for line in out:
         if line.startswith("FAIL"):
             msg = line[5:]
+    if failed:
+        for line in p.stderr.splitlines():
+            if line.startswith("SUMMARY:") or "runtime error:" in line or \
+                    "Assertion" in line:
+                msg += " | " + line.strip()[:300]
+                break
     return failed, msg
 
 
@@ -749,7 +784,20 @@ def check(pid, tier, seed):
                            stdout=subprocess.DEVNULL)
             with open(tmp) as f:
                 fl = json.load(f)
-        confirmed = all(replay_file(fexe, tmp)[0] for _ in range(3))
+        if cfg.get("tsan"):
+            # a ThreadSanitizer report is evidence in itself (happens-before
+            # analysis, not a timing observation): one reproduction suffices
+            reps = [replay_file(fexe, tmp) for _ in range(5)]
+            confirmed = any(r[0] for r in reps)
+            for r in reps:
+                if r[0] and r[1]:
+                    fl["message"] = r[1]
+        else:
+            reps = [replay_file(fexe, tmp) for _ in range(3)]
+        confirmed = all(r[0] for r in reps)
+        if confirmed and reps[0][1] and fl.get("message", "").startswith(
+                "crash"):
+            fl["message"] = reps[0][1]
         if not confirmed:
             unconfirmed += 1
             continue
@@ -878,6 +926,11 @@ def write_manifest():
              "in 7 parameter kinds, 5 policies built from the stock ones; "
              "registration objects constructed at run time; every "
              "virtual_ptr construction route"},
+            {"name": "e2t", "path": "harness/e2",
+             "serves_properties": ["C16"],
+             "kind_free_text": "the typed universe built with "
+             "-fsanitize=thread: concurrent callers and a concurrent updater "
+             "of another policy"},
             {"name": "e3", "path": "proggen",
              "serves_properties": ["C11", "C20"],
              "kind_free_text": "seeded generators of C++ programs, compiled "
